@@ -2,6 +2,7 @@
 
 from __future__ import annotations
 
+import json
 import re
 from typing import TYPE_CHECKING
 
@@ -34,6 +35,22 @@ RE_FLOW = re.compile(
     r"<(\/?)(iframe|noembed|noframes|plaintext|script|style|title|textarea|xmp)(?=[\t\n\f\r />])",
     re.IGNORECASE,
 )
+
+
+RE_PLAIN_VALUE = re.compile(r"[A-Za-z0-9][\w./%-]*(?: [A-Za-z0-9][\w./%-]*)*")
+
+
+def _option_line(key: str, value: str | None) -> str:
+    """Write an HTML attribute as a directive option line.
+
+    Anything but simple words is written as a double-quoted scalar,
+    so that it is carried over unchanged whatever characters it contains
+    (an attribute without a value is an empty string).
+    """
+    value = value or ""
+    if not RE_PLAIN_VALUE.fullmatch(value):
+        value = json.dumps(value, ensure_ascii=False)
+    return f":{key}: {value}"
 
 
 def default_html(text: str, source: str, line_number: int) -> list[nodes.Element]:
@@ -84,14 +101,14 @@ def html_to_nodes(
     nodes_list = []
     for child in root:
         if child.name == "img":
-            if "src" not in child.attrs:
+            if not child.attrs.get("src"):
                 return [
                     renderer.reporter.error(
                         "<img> missing 'src' attribute", line=line_number
                     )
                 ]
             content = "\n".join(
-                f":{k}: {v}"
+                _option_line(k, v)
                 for k, v in sorted(child.attrs.items())
                 if k in OPTION_KEYS_IMAGE
             )
@@ -115,7 +132,7 @@ def html_to_nodes(
             )
 
             options = "\n".join(
-                f":{k}: {v}"
+                _option_line(k, v)
                 for k, v in sorted(child.attrs.items())
                 if k in OPTION_KEYS_ADMONITION
             ).rstrip()
